@@ -51,3 +51,10 @@ pub fn fresh(name: &str) -> PathBuf {
     std::fs::create_dir_all(&d).unwrap();
     d
 }
+
+/// remove the per-process scratch directory (statics are never dropped)
+pub fn cleanup_scratch() {
+    if let Some(d) = SCRATCH.get() {
+        let _ = std::fs::remove_dir_all(d.path());
+    }
+}
